@@ -133,6 +133,15 @@ theorem h0_verdict (s : St) (v : Ver) (h : H0 s) (hcur : ∀ x, s.curHost = some
     split
     · refine ⟨fun _ => ⟨⟨⟨h.sub, h.nd⟩, by intro t r hc; simp at hc⟩, by simp⟩, by simp⟩
     · exact ⟨fun _ => ⟨h0_backoff _ h, by simp [backoff, emit]⟩, by simp⟩
+  | okLost =>
+    simp only [verifyVerdict]
+    split
+    · refine ⟨fun _ => ⟨?_, ?_⟩, by simp⟩
+      · exact h0_finish { s with secure := true } .doneOk ⟨h.sub, h.nd⟩ (by simp)
+      · simp [(finish_static _ _).2.2.2]
+    · split
+      · exact ⟨fun _ => ⟨h0_backoff _ ⟨h.sub, h.nd⟩, by simp [backoff, emit]⟩, by simp⟩
+      · exact ⟨fun _ => ⟨h0_backoff _ h, by simp [backoff, emit]⟩, by simp⟩
   | wrongId =>
     obtain ⟨w1, w2, w3, w4⟩ := h0_wrongId s h hcur
     simp only [verifyVerdict]
